@@ -404,7 +404,7 @@ func firstDiffLine(a, b string) string {
 func TestC15(t *testing.T) {
 	env := engine.GetEnv()
 	res := engine.NewResult("C15", "arrival-orders")
-	res.Rule = "scenario = per-object event chains of a cluster story; every linear extension of the chains (arrival order) is applied to a real kube Controller on the fake clientset, settling after each event (thorough: also every partition into bursts applied back-to-back); the final services / endpoint shards / service accounts must equal a cold controller's on the final objects; non-trivial = order in which some object's event arrives before the object it refers to"
+	res.Rule = "scenario = per-object event chains of a cluster story; every linear extension of the chains (arrival order) is applied to a real kube Controller on the fake clientset, and every partition into bursts applied back-to-back (quick: for the 6-event story only the first three boundaries vary); the final services / endpoint shards / service accounts must equal a cold controller's on the final objects; non-trivial = order in which some object's event arrives before the object it refers to"
 	defer res.Write(t, env)
 	scs := scenarios()
 	if env.Replay != "" {
@@ -451,9 +451,11 @@ func TestC15(t *testing.T) {
 		}
 		engine.LinearExtensions(lens, func(_ int64, o [][2]int) bool {
 			order := append([][2]int(nil), o...)
-			nb := 1
-			if env.Thorough() {
-				nb = 1 << (total - 1)
+			// every partition into bursts (events of a burst are applied back-to-back, the controller settles
+			// between bursts); quick keeps bursts to the first three boundaries of the longest story
+			nb := 1 << (total - 1)
+			if !env.Thorough() && total > 5 {
+				nb = 1 << 3
 			}
 			for burst := 0; burst < nb; burst++ {
 				ord++
